@@ -11,7 +11,7 @@ import gen_story
 import framework
 
 TRAILING_OK = ["line", "stmt", "choice", "header", "ifhead", "forhead", "render", "input",
-               "endif", "py", "join", "jump", "hook"]
+               "endif", "py", "endpy", "join", "jump", "hook"]
 ALPHA = list("ab =/\\'\"{}[]>-+*~@#:^\t") + ["//", "\\//", "//=", " // "]
 
 
